@@ -48,6 +48,9 @@ type engDrv struct {
 	rng    *rand.Rand
 	nread  int
 	nwrite int
+	nmaint int
+	// leave out the maintenance calls that flush the memtable (see maint)
+	noflush bool
 	// reverse iterators with these Max positions are left out (-norevprefix)
 	skipRevMax map[int]bool
 	// reused key / value buffers handed to the engine (see scratch)
@@ -199,15 +202,102 @@ func (d *engDrv) clear() {
 	d.nwrite++
 }
 
+// get reads one key through one of the point-read entry points of KVEngine (the data mapping
+// uses all of them); every one has to answer like GetBytes.
 func (d *engDrv) get(k int) {
-	v, err := d.eng.GetBytes(d.key(k))
-	d.tw.Emit(trace.M{"ev": "get", "k": k, "res": decVal(v), "err": errStr(err)})
+	var v []byte
+	var err error
+	via := d.nread % 6
+	key := d.scratch(0, d.key(k))
+	cp := func(b []byte) []byte {
+		if b == nil {
+			return nil
+		}
+		return append([]byte{}, b...)
+	}
+	switch via {
+	case 0:
+		v, err = d.eng.GetBytes(key)
+	case 1:
+		v, err = d.eng.GetBytesNoLock(key)
+	case 2, 3:
+		var r engine.RefSlice
+		if via == 2 {
+			r, err = d.eng.GetRef(key)
+		} else {
+			r, err = d.eng.GetRefNoLock(key)
+		}
+		if err == nil && r != nil {
+			v = cp(r.Data())
+			r.Free()
+		}
+	default:
+		op := func(b []byte) error { v = cp(b); return nil }
+		if via == 4 {
+			err = d.eng.GetValueWithOp(key, op)
+		} else {
+			err = d.eng.GetValueWithOpNoLock(key, op)
+		}
+	}
+	d.scribble()
+	d.tw.Emit(trace.M{"ev": "get", "k": k, "via": via, "res": decVal(v), "err": errStr(err)})
 	d.nread++
 }
 func (d *engDrv) exist(k int) {
-	ok, err := d.eng.Exist(d.key(k))
-	d.tw.Emit(trace.M{"ev": "exist", "k": k, "res": ok, "err": errStr(err)})
+	var ok bool
+	var err error
+	via := d.nread % 2
+	key := d.scratch(0, d.key(k))
+	if via == 0 {
+		ok, err = d.eng.Exist(key)
+	} else {
+		ok, err = d.eng.ExistNoLock(key)
+	}
+	d.scribble()
+	d.tw.Emit(trace.M{"ev": "exist", "k": k, "via": via, "res": ok, "err": errStr(err)})
 	d.nread++
+}
+
+// maint runs one of the maintenance calls that must be logically invisible (ZEngine!Maint):
+// manual compaction of a key range or of everything (on pebble this flushes the memtable and
+// sends merge operands through the merger's compaction path) and the size estimates.
+func (d *engDrv) maint() {
+	np := len(d.pool)
+	op := d.rng.Intn(4)
+	if d.noflush {
+		// recorded finding pebble-empty-key-flush: no memtable flush while the empty key may be stored
+		op = 3
+	}
+	lo, hi := 0, 0
+	switch op {
+	case 0:
+		d.eng.CompactAllRange()
+	case 1:
+		// everything the pool can hold
+		d.eng.CompactRange(engine.CRange{Start: []byte{}, Limit: []byte{0xff, 0xff, 0xff, 0xff, 0xff}})
+	case 2:
+		lo, hi = 1+d.rng.Intn(np), 1+d.rng.Intn(np)
+		if lo > hi {
+			lo, hi = hi, lo
+		}
+		d.eng.CompactRange(engine.CRange{Start: d.key(lo), Limit: d.key(hi)})
+	default:
+		rgs := []engine.CRange{{Start: d.key(1), Limit: d.key(np)}}
+		d.eng.GetApproximateTotalKeyNum()
+		d.eng.GetApproximateKeyNum(rgs)
+		d.eng.GetApproximateSizes(rgs, true)
+	}
+	d.tw.Emit(trace.M{"ev": "maint", "op": op, "lo": lo, "hi": hi})
+	d.nmaint++
+	// what was readable before is readable after, from wherever it lives now
+	for k := 1; k <= np; k++ {
+		d.get(k)
+	}
+	d.iter(0, 0, 0, false, 0, -1, false)
+	d.iter(0, 0, 0, true, 0, -1, false)
+	for j := 0; j < 4; j++ {
+		d.randomRead()
+	}
 }
 func (d *engDrv) mget(ks []int) {
 	keys := make([][]byte, len(ks))
@@ -351,6 +441,9 @@ func (d *engDrv) execLabel(e *graph.Edge) {
 		d.bmerge(atoi(e.Args[0]), atoi(e.Args[1]))
 	case "DoCommit":
 		d.commit()
+		if d.rng.Intn(4) == 0 {
+			d.maint()
+		}
 	case "DoClear":
 		d.clear()
 	default:
@@ -388,6 +481,7 @@ func engsim(args []string) error {
 	nreads := fs.Int("reads", 2, "sampled reads after every write step")
 	norevprefix := fs.Bool("norevprefix", false, "skip reverse iterators whose Max has another pool key as a proper prefix (known finding mem-revseek-prefix)")
 	indep := fs.Bool("indep", false, "random mode: only batches without intra-batch dependencies (known finding mem-batch-order)")
+	emptyflush := fs.Bool("emptyflush", false, "pebble: flush/compact even when the key pool holds the empty key (known finding pebble-empty-key-flush: the flush never completes)")
 	defwb := fs.Bool("defwb", false, "use the engine's DefaultWriteBatch (as rockredis does) instead of NewWriteBatch")
 	fs.Parse(args)
 
@@ -416,6 +510,11 @@ func engsim(args []string) error {
 		}
 	}
 	d := &engDrv{eng: eng, pool: engPools[pi], pos: map[string]int{}, rng: rng, defwb: *defwb, tw: tws[0]}
+	for _, k := range d.pool {
+		if k == "" && *et == "pebble" && !*emptyflush {
+			d.noflush = true
+		}
+	}
 	for i, k := range d.pool {
 		d.pos[k] = i + 1
 	}
@@ -470,7 +569,7 @@ func engsim(args []string) error {
 		}
 		summary(trace.M{"mode": "graph", "eng": *et, "pool": pi, "poolhex": hexs(d.pool), "nodes": len(g.Labels),
 			"edges": len(g.Edges), "edges_covered": len(covered), "steps": len(walk), "segments": seg,
-			"writes": d.nwrite, "reads": d.nread, "contents": len(seenData)})
+			"writes": d.nwrite, "reads": d.nread, "maint": d.nmaint, "contents": len(seenData)})
 	}
 	np := len(d.pool)
 	for s := 0; s < *nrand; s++ {
@@ -519,6 +618,9 @@ func engsim(args []string) error {
 			case r < 18:
 				d.commit()
 				d.lastOn = map[int]string{}
+				if d.rng.Intn(3) == 0 {
+					d.maint()
+				}
 			default:
 				d.clear()
 				d.lastOn = map[int]string{}
@@ -530,7 +632,7 @@ func engsim(args []string) error {
 	}
 	if *nrand > 0 {
 		summary(trace.M{"mode": "random", "eng": *et, "pool": pi, "poolhex": hexs(d.pool), "sequences": *nrand,
-			"segments": seg, "writes": d.nwrite, "reads": d.nread})
+			"segments": seg, "writes": d.nwrite, "reads": d.nread, "maint": d.nmaint})
 	}
 	for _, tw := range tws {
 		tw.Close()
